@@ -1897,8 +1897,14 @@ class InventoryTreeTransform(DiskTreeTransform):
                     try:
                         mover.rename(self._limbo_name(trans_id), full_path)
                     except TransformRenameFailed as e:
-                        # We may be renaming a dangling inventory id
-                        if e.errno != errno.ENOENT:
+                        # We may be renaming a dangling inventory id: nothing is
+                        # in limbo then.  When the entry was placed below
+                        # something that is not a directory, the missing
+                        # source is reported as ENOTDIR instead of ENOENT.
+                        if e.errno != errno.ENOENT and not (
+                            e.errno == errno.ENOTDIR
+                            and not os.path.lexists(self._limbo_name(trans_id))
+                        ):
                             raise
                     else:
                         self.rename_count += 1
